@@ -576,4 +576,799 @@ theorem portVKVs_cons (c : Cfg) (bfs : Bool) (k v : V) (xs : List (V × V)) :
     portVKVs c bfs ((k, v) :: xs) = (portV c bfs k, portV c bfs v) :: portVKVs c bfs xs := by
   unfold portVKVs portV; split <;> simp only [portBKVs]
 
+/-! ### one object -/
+
+set_option maxHeartbeats 1000000 in
+theorem rObj_case (c : Cfg) (sc : SCfg) (hc : CfgOK c sc) (e : Nat) (he : e = era c.version)
+   (fs fm ds dm : Nat) (bfs txt : Bool) (hf : fs ≤ fm) (hd : dm ≤ ds) (hx : Ctx c bfs txt)
+   (hItems : ∀ n, Lock e (fun a b => b = portVList c bfs a) (items sc e c.version fs ds txt n) (rItems c fm dm bfs n))
+   (hDict : Lock e (fun a b => b = portVKVs c bfs a) (dictItems sc e c.version fs ds txt) (rDict c fm dm bfs))
+   (hCode : ∀ flag, (flag = true → verGeL c.version 3 0 = true) →
+      Lock e (fun a b => b = portV c bfs a) (code sc e c.version fs ds flag) (rCode c fm dm flag)) :
+   Lock e (RO c bfs) (rObj sc e c.version (fs+1) ds txt) (rObject c (fm+1) dm bfs) := by
+  rw [rObj, rObject]
+  by_cases hdep : ds > sc.maxDepth
+  · simp only [hdep, if_true]; exact Lock.fail
+  · have hdm : ¬ dm > c.depthLimit := by have := hc.depth; omega
+    simp only [hdep, hdm, if_false]
+    refine Lock.seq lock_u8_read1 ?_
+    intro b bl hbl
+    subst hbl
+    simp only []
+    by_cases h48 : (if e = 4 then b &&& 127 else b) = 48
+    · obtain ⟨hb, hs⟩ := ty_lit _ _ 48 (by decide) h48
+      rw [if_pos h48, hb]
+      split
+      · exact Lock.fail
+      · exact Lock.ret rfl
+    rw [if_neg h48]
+    refine Lock.wrap ?_
+    split
+    · rename_i heq; obtain ⟨hb, hs⟩ := ty_lit _ _ 78 (by decide) heq; rw [hb]
+      exact Lock.ret (portV_leaf c bfs _ rfl).symm
+    · rename_i heq; obtain ⟨hb, hs⟩ := ty_lit _ _ 70 (by decide) heq; rw [hb]
+      exact Lock.ret (portV_leaf c bfs _ rfl).symm
+    · rename_i heq; obtain ⟨hb, hs⟩ := ty_lit _ _ 84 (by decide) heq; rw [hb]
+      exact Lock.ret (portV_leaf c bfs _ rfl).symm
+    · rename_i heq; obtain ⟨hb, hs⟩ := ty_lit _ _ 83 (by decide) heq; rw [hb]
+      exact Lock.ret (portV_leaf c bfs _ rfl).symm
+    · rename_i heq; obtain ⟨hb, hs⟩ := ty_lit _ _ 46 (by decide) heq; rw [hb]
+      exact Lock.ret (portV_leaf c bfs _ rfl).symm
+    · -- 'i'
+      rename_i heq; obtain ⟨hb, hs⟩ := ty_lit _ _ 105 (by decide) heq; rw [hb]
+      generalize hflag : (decide (e = 4) && decide (b &&& 128 ≠ 0)) = flag at hs ⊢; rw [hs]
+      exact Lock.seqEq lock_i32 (fun i => lock_refLeaf c bfs _ _ rfl)
+    · -- 'I'
+      rename_i heq; obtain ⟨hb, hs⟩ := ty_lit _ _ 73 (by decide) heq; rw [hb]
+      generalize hflag : (decide (e = 4) && decide (b &&& 128 ≠ 0)) = flag at hs ⊢; rw [hs]
+      refine Lock.guard (fun _ => Lock.seq lock_rd8_i64 ?_)
+      rintro a b rfl
+      exact lock_refLeaf c bfs _ _ rfl
+    · -- 'l'
+      rename_i heq; obtain ⟨hb, hs⟩ := ty_lit _ _ 108 (by decide) heq; rw [hb]
+      generalize hflag : (decide (e = 4) && decide (b &&& 128 ≠ 0)) = flag at hs ⊢; rw [hs]
+      refine Lock.seqEq lock_i32 (fun n => Lock.seq (lock_digits _ _ _) ?_)
+      rintro ds d rfl
+      refine Lock.guard (fun _ => ?_)
+      have hv : (e ≥ 3) ↔ verGeL c.version 3 0 = true := he ▸ era_ge3 c.version
+      by_cases h3 : verGeL c.version 3 0 = true
+      · simp only [h3, hv.2 h3, if_true]
+        exact lock_refLeaf c bfs _ _ rfl
+      · have : ¬ e ≥ 3 := fun h => h3 (hv.1 h)
+        simp only [h3, this, if_false]
+        exact lock_refLeaf c bfs _ _ rfl
+    · -- 'f'
+      rename_i heq; obtain ⟨hb, hs⟩ := ty_lit _ _ 102 (by decide) heq; rw [hb]
+      generalize hflag : (decide (e = 4) && decide (b &&& 128 ≠ 0)) = flag at hs ⊢; rw [hs]
+      exact Lock.seqEq lock_u8 (fun k => Lock.seqEq (lock_rdN k) (fun s => lock_refLeaf c bfs _ _ rfl))
+    · -- 'g'
+      rename_i heq; obtain ⟨hb, hs⟩ := ty_lit _ _ 103 (by decide) heq; rw [hb]
+      generalize hflag : (decide (e = 4) && decide (b &&& 128 ≠ 0)) = flag at hs ⊢; rw [hs]
+      refine Lock.guard (fun _ => Lock.seq lock_rd8_u64 ?_)
+      rintro a b rfl
+      exact lock_refLeaf c bfs _ _ rfl
+    · -- 'x'
+      rename_i heq; obtain ⟨hb, hs⟩ := ty_lit _ _ 120 (by decide) heq; rw [hb]
+      generalize hflag : (decide (e = 4) && decide (b &&& 128 ≠ 0)) = flag at hs ⊢; rw [hs]
+      exact Lock.seqEq lock_u8 (fun k => Lock.seqEq (lock_rdN k) (fun s =>
+        Lock.seqEq lock_u8 (fun k2 => Lock.seqEq (lock_rdN k2) (fun s2 => lock_refLeaf c bfs _ _ rfl))))
+    · -- 'y'
+      rename_i heq; obtain ⟨hb, hs⟩ := ty_lit _ _ 121 (by decide) heq; rw [hb]
+      generalize hflag : (decide (e = 4) && decide (b &&& 128 ≠ 0)) = flag at hs ⊢; rw [hs]
+      refine Lock.guard (fun _ => Lock.seq lock_rd8_u64 ?_)
+      rintro a b rfl
+      refine Lock.seq lock_rd8_u64 ?_
+      rintro a2 b2 rfl
+      exact lock_refLeaf c bfs _ _ rfl
+    · -- 's'
+      rename_i heq; obtain ⟨hb, hs⟩ := ty_lit _ _ 115 (by decide) heq; rw [hb]
+      generalize hflag : (decide (e = 4) && decide (b &&& 128 ≠ 0)) = flag at hs ⊢; rw [hs]
+      refine Lock.guard (fun htx => Lock.seq lock_size32 ?_)
+      rintro n ni rfl
+      refine Lock.seqEq (lock_rdN n) (fun s => ?_)
+      have htxt : txt = false := by simpa [hc.strict] using htx
+      have key : verGeL c.version 3 0 = true → bfs = true := by
+        intro h3; unfold Ctx at hx; simp only [h3, if_true, htxt] at hx; cases bfs
+        · simp at hx
+        · rfl
+      refine (lock_ref (.bytes s) (if bfs = true then V.bytes s else compatStr s) _ ?_).mono ?_
+      · intro hfl; rw [key (py3_of_flag c e b he (hflag ▸ hfl))]; rfl
+      · rintro a w ⟨rfl, rfl⟩
+        unfold portV
+        by_cases h3 : verGeL c.version 3 0 = true
+        · simp only [h3, if_true, key h3]
+        · simp only [h3]; simp only [portB]; rfl
+    · -- 't'
+      rename_i heq; obtain ⟨hb, hs⟩ := ty_lit _ _ 116 (by decide) heq; rw [hb]
+      generalize hflag : (decide (e = 4) && decide (b &&& 128 ≠ 0)) = flag at hs ⊢; rw [hs]
+      refine Lock.guard (fun h03 => Lock.seq lock_size32 ?_)
+      rintro n ni rfl
+      refine Lock.seqEq (lock_rdN n) (fun s => ?_)
+      have hv : (e ≥ 3) ↔ verGeL c.version 3 0 = true := he ▸ era_ge3 c.version
+      by_cases h4 : e = 4
+      · have h3 : verGeL c.version 3 0 = true := hv.1 (by omega)
+        simp only [h4, h3, if_true]
+        cases hdec : Utf8.decodeSurrogatePass s with
+        | none => exact Lock.fail
+        | some cps =>
+          simp only []
+          exact lock_modStrs_model _ (by omega) (lock_refLeaf c bfs _ _ rfl)
+      · have hle := he ▸ era_le4 c.version
+        have h3 : ¬ verGeL c.version 3 0 = true := fun h => by have := hv.2 h; omega
+        have hfl : flag = false := by rw [← hflag]; simp [h4]
+        simp only [h4, h3, if_false, hfl]
+        refine lock_modStrs_both s ?_
+        simp only [rRef, Bool.false_eq_true, if_false, pure_bind]
+        exact Lock.ret (by unfold portV; simp only [h3, portB_bytes]; simp)
+    · -- 'R'
+      rename_i heq; obtain ⟨hb, hs⟩ := ty_lit _ _ 82 (by decide) heq; rw [hb]
+      refine Lock.guard (fun h12 => Lock.seqEq lock_i32 (fun n => ?_))
+      have h12' : e = 1 ∨ e = 2 := by
+        by_cases h1 : e = 1
+        · exact Or.inl h1
+        · by_cases h2 : e = 2
+          · exact Or.inr h2
+          · simp [h1, h2] at h12
+      have hv : (e ≥ 3) ↔ verGeL c.version 3 0 = true := he ▸ era_ge3 c.version
+      have h3 : verGeL c.version 3 0 = false := by
+        cases hh : verGeL c.version 3 0 with
+        | false => rfl
+        | true => have := hv.2 hh; omega
+      exact lock_strRef c bfs n h12' h3
+    · -- 'u'
+      rename_i heq; obtain ⟨hb, hs⟩ := ty_lit _ _ 117 (by decide) heq; rw [hb]
+      generalize hflag : (decide (e = 4) && decide (b &&& 128 ≠ 0)) = flag at hs ⊢; rw [hs]
+      refine Lock.seq lock_size32 ?_
+      rintro n ni rfl
+      refine Lock.seqEq (lock_rdN n) (fun s => ?_)
+      have hv : (e ≥ 3) ↔ verGeL c.version 3 0 = true := he ▸ era_ge3 c.version
+      by_cases h3 : verGeL c.version 3 0 = true
+      · simp only [h3, hv.2 h3, if_true, Bool.not_true, Bool.false_eq_true, if_false]
+        cases hdec : Utf8.decodeSurrogatePass s with
+        | none => exact Lock.fail
+        | some cps => exact lock_refLeaf c bfs _ _ rfl
+      · have h3' : ¬ e ≥ 3 := fun h => h3 (hv.1 h)
+        have hfl : flag = false := by rw [← hflag]; simp [show ¬ e = 4 by omega]
+        simp only [h3, h3', if_false, Bool.not_false, if_true, hfl]
+        cases hdec : Utf8.decodeSurrogatePass s with
+        | none => exact Lock.fail
+        | some cps =>
+          simp only [rRef, Bool.false_eq_true, if_false, pure_bind]
+          exact Lock.ret (portV_leaf c bfs _ rfl).symm
+    · -- 'a'
+      rename_i heq; obtain ⟨hb, hs⟩ := ty_lit _ _ 97 (by decide) heq; rw [hb]
+      generalize hflag : (decide (e = 4) && decide (b &&& 128 ≠ 0)) = flag at hs ⊢; rw [hs]
+      refine Lock.guard (fun h4 => Lock.seq lock_size32 ?_)
+      rintro n ni rfl
+      refine Lock.seqEq (lock_rdN n) (fun s => ?_)
+      refine lock_asciiStr sc hc.strict s _ _ (fun hcs => ?_)
+      rw [hcs]; exact lock_refLeaf c bfs _ _ rfl
+    · -- 'A'
+      rename_i heq; obtain ⟨hb, hs⟩ := ty_lit _ _ 65 (by decide) heq; rw [hb]
+      generalize hflag : (decide (e = 4) && decide (b &&& 128 ≠ 0)) = flag at hs ⊢; rw [hs]
+      refine Lock.guard (fun h4 => Lock.seq lock_size32 ?_)
+      rintro n ni rfl
+      refine Lock.seqEq (lock_rdN n) (fun s => ?_)
+      refine lock_asciiStr sc hc.strict s _ _ (fun hcs => ?_)
+      have hle := he ▸ era_le4 c.version
+      refine lock_modStrs_model _ (by omega) ?_
+      rw [hcs]; exact lock_refLeaf c bfs _ _ rfl
+    · -- 'z'
+      rename_i heq; obtain ⟨hb, hs⟩ := ty_lit _ _ 122 (by decide) heq; rw [hb]
+      generalize hflag : (decide (e = 4) && decide (b &&& 128 ≠ 0)) = flag at hs ⊢; rw [hs]
+      refine Lock.guard (fun h4 => Lock.seqEq lock_u8 (fun n => ?_))
+      refine Lock.seqEq (lock_rdN n) (fun s => ?_)
+      refine lock_asciiStr sc hc.strict s _ _ (fun hcs => ?_)
+      rw [hcs]; exact lock_refLeaf c bfs _ _ rfl
+    · -- 'Z'
+      rename_i heq; obtain ⟨hb, hs⟩ := ty_lit _ _ 90 (by decide) heq; rw [hb]
+      generalize hflag : (decide (e = 4) && decide (b &&& 128 ≠ 0)) = flag at hs ⊢; rw [hs]
+      refine Lock.guard (fun h4 => Lock.seqEq lock_u8 (fun n => ?_))
+      refine Lock.seqEq (lock_rdN n) (fun s => ?_)
+      refine lock_asciiStr sc hc.strict s _ _ (fun hcs => ?_)
+      have hle := he ▸ era_le4 c.version
+      refine lock_modStrs_model _ (by omega) ?_
+      rw [hcs]; exact lock_refLeaf c bfs _ _ rfl
+    · -- ')'
+      rename_i heq; obtain ⟨hb, hs⟩ := ty_lit _ _ 41 (by decide) heq; rw [hb]
+      generalize hflag : (decide (e = 4) && decide (b &&& 128 ≠ 0)) = flag at hs ⊢; rw [hs]
+      refine Lock.guard (fun h4 => Lock.seqEq lock_u8 (fun n => ?_))
+      refine Lock.seq (lock_reserve _ flag) ?_
+      rintro i i' ⟨hii, hi⟩; rw [hii]
+      refine Lock.seq (hItems n) ?_
+      rintro xs xs' rfl
+      refine (lock_insert (.tuple xs) _ i ?_).mono ?_
+      · intro his
+        have h3 := py3_of_flag c e b he (hflag ▸ hi his)
+        simp only [portVList, h3, if_true]
+      · rintro a w ⟨rfl, rfl⟩; rw [portV_tuple]
+    · -- 40
+      rename_i heq; obtain ⟨hb, hs⟩ := ty_lit _ _ 40 (by decide) heq; rw [hb]
+      generalize hflag : (decide (e = 4) && decide (b &&& 128 ≠ 0)) = flag at hs ⊢; rw [hs]
+      refine Lock.seq lock_size32 ?_
+      rintro n ni rfl
+      simp only [Int.toNat_natCast]
+      refine Lock.seq (lock_reserve _ flag) ?_
+      rintro i i' ⟨hii, hi⟩; rw [hii]
+      refine Lock.seq (hItems n) ?_
+      rintro xs xs' rfl
+      refine (lock_insert (.tuple xs) _ i ?_).mono ?_
+      · intro his
+        have h3 := py3_of_flag c e b he (hflag ▸ hi his)
+        simp only [portVList, h3, if_true]
+      · rintro a w ⟨rfl, rfl⟩; rw [portV_tuple]
+    · -- 91
+      rename_i heq; obtain ⟨hb, hs⟩ := ty_lit _ _ 91 (by decide) heq; rw [hb]
+      generalize hflag : (decide (e = 4) && decide (b &&& 128 ≠ 0)) = flag at hs ⊢; rw [hs]
+      refine Lock.seq lock_size32 ?_
+      rintro n ni rfl
+      simp only [Int.toNat_natCast]
+      refine Lock.seq (lock_reserve _ flag) ?_
+      rintro i i' ⟨hii, hi⟩; rw [hii]
+      refine Lock.seq (hItems n) ?_
+      rintro xs xs' rfl
+      refine (lock_insert (.list xs) _ i ?_).mono ?_
+      · intro his
+        have h3 := py3_of_flag c e b he (hflag ▸ hi his)
+        simp only [portVList, h3, if_true]
+      · rintro a w ⟨rfl, rfl⟩; rw [portV_list]
+    · -- 60
+      rename_i heq; obtain ⟨hb, hs⟩ := ty_lit _ _ 60 (by decide) heq; rw [hb]
+      generalize hflag : (decide (e = 4) && decide (b &&& 128 ≠ 0)) = flag at hs ⊢; rw [hs]
+      refine Lock.guard (fun hg => Lock.seq lock_size32 ?_)
+      rintro n ni rfl
+      simp only [Int.toNat_natCast]
+      refine Lock.seq (lock_reserve _ flag) ?_
+      rintro i i' ⟨hii, hi⟩; rw [hii]
+      refine Lock.seq (hItems n) ?_
+      rintro xs xs' rfl
+      refine (lock_insert (.set xs) _ i ?_).mono ?_
+      · intro his
+        have h3 := py3_of_flag c e b he (hflag ▸ hi his)
+        simp only [portVList, h3, if_true]
+      · rintro a w ⟨rfl, rfl⟩; rw [portV_set]
+    · -- 62
+      rename_i heq; obtain ⟨hb, hs⟩ := ty_lit _ _ 62 (by decide) heq; rw [hb]
+      generalize hflag : (decide (e = 4) && decide (b &&& 128 ≠ 0)) = flag at hs ⊢; rw [hs]
+      refine Lock.guard (fun hg => Lock.seq lock_size32 ?_)
+      rintro n ni rfl
+      simp only [Int.toNat_natCast]
+      refine Lock.seq (lock_reserve _ flag) ?_
+      rintro i i' ⟨hii, hi⟩; rw [hii]
+      refine Lock.seq (hItems n) ?_
+      rintro xs xs' rfl
+      refine (lock_insert (.fset xs) _ i ?_).mono ?_
+      · intro his
+        have h3 := py3_of_flag c e b he (hflag ▸ hi his)
+        simp only [portVList, h3, if_true]
+      · rintro a w ⟨rfl, rfl⟩; rw [portV_fset]
+    · -- '{'
+      rename_i heq; obtain ⟨hb, hs⟩ := ty_lit _ _ 123 (by decide) heq; rw [hb]
+      generalize hflag : (decide (e = 4) && decide (b &&& 128 ≠ 0)) = flag at hs ⊢; rw [hs]
+      refine Lock.seq (lock_reserve _ flag) ?_
+      rintro i i' ⟨hii, hi⟩; rw [hii]
+      refine Lock.seq hDict ?_
+      rintro xs xs' rfl
+      refine (lock_insert (.dict xs) _ i ?_).mono ?_
+      · intro his
+        have h3 := py3_of_flag c e b he (hflag ▸ hi his)
+        simp only [portVKVs, h3, if_true]
+      · rintro a w ⟨rfl, rfl⟩; rw [portV_dict]
+    · -- 'r'
+      rename_i heq; obtain ⟨hb, hs⟩ := ty_lit _ _ 114 (by decide) heq; rw [hb]
+      refine Lock.guard (fun h4 => Lock.seqEq lock_i32 (fun n => ?_))
+      have hle := he ▸ era_le4 c.version
+      have h3 : verGeL c.version 3 0 = true := (he ▸ era_ge3 c.version).1 (by omega)
+      exact lock_objRef c bfs n h3
+    · -- 'c'
+      rename_i heq; obtain ⟨hb, hs⟩ := ty_lit _ _ 99 (by decide) heq; rw [hb]
+      generalize hflag : (decide (e = 4) && decide (b &&& 128 ≠ 0)) = flag at hs ⊢; rw [hs]
+      exact hCode flag (fun hfl => py3_of_flag c e b he (hflag ▸ hfl))
+    · exact Lock.fail
+
+/-! ### item loops -/
+
+theorem items_case (c : Cfg) (sc : SCfg) (e : Nat)
+   (fs fm ds dm : Nat) (bfs txt : Bool)
+   (hObj : Lock e (RO c bfs) (rObj sc e c.version fs (ds+1) txt) (rObject c fm (dm+1) bfs))
+   (hItems : ∀ n, Lock e (fun a b => b = portVList c bfs a) (items sc e c.version fs ds txt n) (rItems c fm dm bfs n)) :
+   ∀ n, Lock e (fun a b => b = portVList c bfs a) (items sc e c.version (fs+1) ds txt n) (rItems c (fm+1) dm bfs n) := by
+  intro n
+  cases n with
+  | zero =>
+    rw [items, rItems]
+    · exact Lock.ret (portVList_nil c bfs).symm
+    all_goals omega
+  | succ n =>
+    rw [items, rItems]
+    refine Lock.seq hObj ?_
+    intro a b hab
+    cases a with
+    | none => exact Lock.fail
+    | some v =>
+      simp only [RO] at hab
+      subst hab
+      refine Lock.seq (hItems n) ?_
+      rintro xs xs' rfl
+      exact Lock.ret (portVList_cons c bfs v xs).symm
+
+theorem u8_run (s : PSt) : u8.run s = match s.inp with
+    | [] => .error .eof
+    | x :: rest => .ok (x, { s with inp := rest }) := by
+  unfold u8
+  rw [P_run_bind, rd_run]
+  cases h : s.inp with
+  | nil => simp
+  | cons x rest => simp [StateT.run, pure, StateT.pure, Except.pure, leNat]
+
+theorem byte48 : ∀ x, x < 256 → x &&& 127 = 48 → x &&& 128 = 0 → x = 48 := by decide +kernel
+
+theorem wrap_not_none (m : P V) (s s' : PSt) : (do let v ← m; pure (some v) : P (Option V)).run s ≠ .ok (none, s') := by
+  rw [P_run_bind]
+  cases m.run s with
+  | error er => simp
+  | ok r => simp [StateT.run, pure, StateT.pure, Except.pure]
+
+/-- marshal.c's reader returns NULL exactly when the next byte is TYPE_NULL ('0') -/
+theorem rObj_head (sc : SCfg) (hs : sc.strict = true) (e : Nat) (ver : List Nat) (fuel d : Nat) (txt : Bool)
+    (ss ss' : PSt) (r : Option V) (hab : AllBytes ss.inp)
+    (hrun : (rObj sc e ver fuel d txt).run ss = .ok (r, ss')) :
+    ∃ x rest, ss.inp = x :: rest ∧ (r = none ↔ x = 48) ∧ (r = none → ss' = { ss with inp := rest }) := by
+  cases fuel with
+  | zero =>
+    rw [rObj] at hrun
+    simp [StateT.run, throw, throwThe, MonadExceptOf.throw, StateT.lift, Except.bind, bind, liftM, monadLift,
+      MonadLift.monadLift] at hrun
+  | succ fuel =>
+    rw [rObj] at hrun
+    by_cases hdep : d > sc.maxDepth
+    · simp only [hdep, if_true] at hrun
+      simp [StateT.run, throw, throwThe, MonadExceptOf.throw, StateT.lift, Except.bind, bind, liftM, monadLift,
+        MonadLift.monadLift] at hrun
+    · simp only [hdep, if_false] at hrun
+      rw [P_run_bind, u8_run] at hrun
+      cases hinp : ss.inp with
+      | nil => simp [hinp] at hrun
+      | cons x rest =>
+        simp only [hinp] at hrun
+        refine ⟨x, rest, rfl, ?_⟩
+        have hx : x < 256 := hab x (by simp [hinp])
+        by_cases h48 : (if e = 4 then x &&& 127 else x) = 48
+        · rw [if_pos h48] at hrun
+          by_cases hg : (sc.strict && (decide (e = 4) && decide (x &&& 128 ≠ 0))) = true
+          · simp only [hg, if_true] at hrun
+            simp [StateT.run, throw, throwThe, MonadExceptOf.throw, StateT.lift, Except.bind, bind, liftM, monadLift,
+              MonadLift.monadLift] at hrun
+          · simp only [hg, if_false] at hrun
+            simp [StateT.run, pure, StateT.pure, Except.pure] at hrun
+            obtain ⟨rfl, rfl⟩ := hrun
+            have hx48 : x = 48 := by
+              by_cases he : e = 4
+              · simp [he] at h48
+                simp [hs, he] at hg
+                exact byte48 x hx h48 hg
+              · simpa [he] using h48
+            exact ⟨by simp [hx48], fun _ => rfl⟩
+        · rw [if_neg h48] at hrun
+          have hne : r ≠ none := by
+            intro hr; subst hr
+            exact wrap_not_none _ _ _ hrun
+          have hx48 : x ≠ 48 := by
+            intro hx; subst hx
+            by_cases he : e = 4 <;> simp [he] at h48
+          exact ⟨by simp [hne, hx48], fun h => absurd h hne⟩
+
+theorem dict_case (c : Cfg) (sc : SCfg) (hc : CfgOK c sc) (e : Nat)
+   (fs fm ds dm : Nat) (bfs txt : Bool)
+   (hObj : Lock e (RO c bfs) (rObj sc e c.version fs (ds+1) txt) (rObject c fm (dm+1) bfs))
+   (hDict : Lock e (fun a b => b = portVKVs c bfs a) (dictItems sc e c.version fs ds txt) (rDict c fm dm bfs)) :
+   Lock e (fun a b => b = portVKVs c bfs a) (dictItems sc e c.version (fs+1) ds txt) (rDict c (fm+1) dm bfs) := by
+  -- what follows the key on both sides
+  have hrest : ∀ kv, Lock e (fun a b => b = portVKVs c bfs a)
+      (do let v ← rObj sc e c.version fs (ds + 1) txt
+          match v with
+          | none => if sc.strict = true then throw PErr.badData else pure []
+          | some vv => do
+            let rest ← dictItems sc e c.version fs ds txt
+            pure ((kv, vv) :: rest))
+      (do let v ← rObject c fm (dm + 1) bfs
+          let rest ← rDict c fm dm bfs
+          pure ((portV c bfs kv, v) :: rest)) := by
+    intro kv
+    refine Lock.seq hObj ?_
+    intro v w hvw
+    cases v with
+    | none => simp only [hc.strict, if_true]; exact Lock.fail
+    | some vv =>
+      simp only [RO] at hvw; subst hvw
+      refine Lock.seq hDict ?_
+      rintro xs xs' rfl
+      exact Lock.ret (portVKVs_cons c bfs kv vv xs).symm
+  intro ss sm a ss' hI hrun
+  rw [dictItems, P_run_bind] at hrun
+  cases hk : (rObj sc e c.version fs (ds + 1) txt).run ss with
+  | error er => rw [hk] at hrun; cases hrun
+  | ok r =>
+    obtain ⟨k, s1⟩ := r
+    rw [hk] at hrun
+    simp only [] at hrun
+    obtain ⟨x, rest, hinp, hnone, hst⟩ := rObj_head sc hc.strict e c.version fs (ds+1) txt ss s1 k hI.2.2.2 hk
+    have hinpm : sm.inp = x :: rest := by rw [← hI.1]; exact hinp
+    rw [rDict, M_run_bind]
+    have hr1 : (readN 1).run sm = .ok ([x], { sm with inp := rest }) := by
+      have := readN_run 1 sm
+      simp [hinpm] at this
+      exact this
+    rw [hr1]
+    simp only []
+    by_cases hx : x = 48
+    · subst hx
+      have hkn : k = none := hnone.2 rfl
+      subst hkn
+      have hs1 := hst rfl
+      subst hs1
+      simp [StateT.run, pure, StateT.pure, Except.pure] at hrun
+      obtain ⟨rfl, rfl⟩ := hrun
+      refine ⟨[], { sm with inp := rest }, rfl, (portVKVs_nil c bfs).symm, rfl, hI.2.1, hI.2.2.1, ?_⟩
+      have := allBytes_drop 1 hI.2.2.2
+      simpa [hinp] using this
+    · have hks : k ≠ none := fun h => hx (hnone.1 h)
+      cases k with
+      | none => exact absurd rfl hks
+      | some kv =>
+        simp only [] at hrun
+        -- the Model: not the terminator, seek back, read the key
+        obtain ⟨kw, sm1, hm1, hR1, hI1⟩ := hObj ss sm (some kv) s1 hI hk
+        simp only [RO] at hR1
+        subst hR1
+        obtain ⟨kvs, sm2, hm2, hR2, hI2⟩ := hrest kv s1 sm1 a ss' hI1 hrun
+        refine ⟨kvs, sm2, ?_, hR2, hI2⟩
+        have hback : ({ sm with inp := rest } : St) = { inp := rest, refs := sm.refs, strs := sm.strs } := rfl
+        have hsm : ({ inp := x :: rest, refs := sm.refs, strs := sm.strs } : St) = sm := by
+          cases sm; simp at hinpm; simp [hinpm]
+        split
+        · rename_i heq; cases heq
+        · rename_i heq; simp at heq; exact absurd heq hx
+        · rename_i y tl heq
+          simp at heq
+          obtain ⟨rfl, _⟩ := heq
+          rw [M_run_modify]
+          simp only [hsm]
+          rw [M_run_bind, hm1]
+          exact hm2
+
+/-- `obj` (an object that must not be NULL) against xdis's r_object -/
+theorem lock_obj (c : Cfg) (sc : SCfg) (e : Nat) (f fm ds dm : Nat) (bfs txt : Bool)
+    (hObj : ∀ f', f' < f → Lock e (RO c bfs) (rObj sc e c.version f' (ds+1) txt) (rObject c fm (dm+1) bfs)) :
+    Lock e (fun a b => b = portV c bfs a) (obj sc e c.version f ds txt) (rObject c fm (dm+1) bfs) := by
+  unfold obj
+  cases f with
+  | zero => exact Lock.fail
+  | succ f' =>
+    simp only []
+    have h := hObj f' (by omega)
+    intro ss sm a ss' hI hrun
+    rw [P_run_bind] at hrun
+    cases hk : (rObj sc e c.version f' (ds + 1) txt).run ss with
+    | error er => rw [hk] at hrun; cases hrun
+    | ok r =>
+      obtain ⟨k, s1⟩ := r
+      rw [hk] at hrun
+      obtain ⟨w, sm1, hm, hR, hI1⟩ := h ss sm k s1 hI hk
+      cases k with
+      | none =>
+        simp [StateT.run, throw, throwThe, MonadExceptOf.throw, StateT.lift, Except.bind, bind, liftM, monadLift,
+          MonadLift.monadLift] at hrun
+      | some v =>
+        simp [StateT.run, pure, StateT.pure, Except.pure] at hrun
+        obtain ⟨rfl, rfl⟩ := hrun
+        exact ⟨w, sm1, hm, hR, hI1⟩
+
+
+/-! ### code objects -/
+
+theorem verGeL_anti (v : List Nat) (a b a' b' : Nat) (hle : a' < a ∨ (a' = a ∧ b' ≤ b))
+    (h : verGeL v a' b' = false) : verGeL v a b = false := by
+  cases hh : verGeL v a b with
+  | false => rfl
+  | true => rw [verGeL_mono v a b a' b' hle hh] at h; cases h
+
+theorem lock_argcount (c : Cfg) : Lock e (fun a b => b = a) (argcountF c.version) (argcountM c) := by
+  unfold argcountF argcountM intF
+  by_cases g23 : verGeL c.version 2 3 = true
+  · have g13 := verGeL_mono _ 2 3 1 3 (by omega) g23
+    simp only [g23, g13, if_true]; exact lock_i32
+  · by_cases g13 : verGeL c.version 1 3 = true
+    · simp only [g23, g13, if_true, if_false]; exact lock_i16
+    · simp only [g23, g13, if_false]; exact Lock.ret rfl
+
+theorem lock_posonly (c : Cfg) (sc : SCfg) (hc : CfgOK c sc) : Lock e (fun a b => b = a) (posonlyF c.version) (posonlyM c) := by
+  unfold posonlyF posonlyM
+  by_cases g38 : verGeL c.version 3 8 = true
+  · simp only [g38, if_true, hc.m1, hc.m2, hc.m3, hc.m4, or_self, if_false]
+    exact Lock.seqEq lock_i32 (fun x => Lock.ret rfl)
+  · simp only [g38, if_false]; exact Lock.ret rfl
+
+theorem lock_kwonly (c : Cfg) : Lock e (fun a b => b = a) (kwonlyF c.version) (kwonlyM c) := by
+  unfold kwonlyF kwonlyM
+  by_cases g : verGeL c.version 3 0 = true
+  · simp only [g, if_true]; exact lock_i32
+  · simp only [g, if_false]; exact Lock.ret rfl
+
+theorem lock_nlocals (c : Cfg) : Lock e (fun a b => b = a) (nlocalsF c.version) (nlocalsM c) := by
+  unfold nlocalsF nlocalsM intF
+  by_cases g311 : verGeL c.version 3 11 = true
+  · simp only [g311, if_true, Bool.not_true, Bool.false_eq_true, if_false]; exact Lock.ret rfl
+  · simp only [g311, if_false, Bool.not_false, if_true]
+    by_cases g23 : verGeL c.version 2 3 = true
+    · have g13 := verGeL_mono _ 2 3 1 3 (by omega) g23
+      simp only [g23, g13, if_true]; exact lock_i32
+    · by_cases g13 : verGeL c.version 1 3 = true
+      · simp only [g23, g13, if_true, if_false]; exact lock_i16
+      · simp only [g23, g13, if_false]; exact Lock.ret rfl
+
+theorem lock_stacksize (c : Cfg) : Lock e (fun a b => b = a) (stacksizeF c.version) (stacksizeM c) := by
+  unfold stacksizeF stacksizeM intF
+  by_cases g23 : verGeL c.version 2 3 = true
+  · have g15 := verGeL_mono _ 2 3 1 5 (by omega) g23
+    simp only [g23, g15, if_true]; exact lock_i32
+  · by_cases g15 : verGeL c.version 1 5 = true
+    · simp only [g23, g15, if_true, if_false]; exact lock_i16
+    · simp only [g23, g15, if_false]; exact Lock.ret rfl
+
+theorem lock_flags (c : Cfg) : Lock e (fun a b => b = a) (flagsF c.version) (flagsM c) := by
+  unfold flagsF flagsM intF
+  by_cases g23 : verGeL c.version 2 3 = true
+  · have g13 := verGeL_mono _ 2 3 1 3 (by omega) g23
+    simp only [g23, g13, if_true]; exact lock_i32
+  · by_cases g13 : verGeL c.version 1 3 = true
+    · simp only [g23, g13, if_true, if_false]; exact lock_i16
+    · simp only [g23, g13, if_false]; exact Lock.ret rfl
+
+theorem lock_first (c : Cfg) : Lock e (fun a b => b = a) (firstF c.version) (firstM c) := by
+  unfold firstF firstM intF
+  by_cases g15 : verGeL c.version 1 5 = true
+  · simp only [g15, if_true]
+    by_cases g23 : verGeL c.version 2 3 = true
+    · simp only [g23, if_true]; exact lock_i32
+    · simp only [g23, if_false]; exact lock_i16
+  · simp only [g15, if_false]; exact Lock.ret rfl
+
+theorem lock_posonly' (c : Cfg) (sc : SCfg) (hc : CfgOK c sc) :
+    Lock e (fun a b => b = a ∧ Leaf a = true) (posonlyF c.version) (posonlyM c) := by
+  unfold posonlyF posonlyM
+  by_cases g38 : verGeL c.version 3 8 = true
+  · simp only [g38, if_true, hc.m1, hc.m2, hc.m3, hc.m4, or_self, if_false]
+    exact Lock.seqEq lock_i32 (fun x => Lock.ret ⟨rfl, rfl⟩)
+  · simp only [g38, if_false]; exact Lock.ret ⟨rfl, rfl⟩
+
+theorem ctx_code (c : Cfg) : Ctx c true false := by unfold Ctx; split <;> rfl
+theorem ctx_consts (c : Cfg) : Ctx c (verGeL c.version 3 0) false := by
+  unfold Ctx; cases h : verGeL c.version 3 0 <;> simp
+theorem ctx_varnames (c : Cfg) : Ctx c false (verGeL c.version 3 0) := by
+  unfold Ctx; cases h : verGeL c.version 3 0 <;> simp
+
+
+/-- a field that exists only from some version on -/
+theorem lock_optObj (c : Cfg) (sc : SCfg) (e : Nat) (fs fm ds dm : Nat) (g bfs txt : Bool) (d : V)
+    (hO : Lock e (fun a b => b = portV c bfs a) (obj sc e c.version fs ds txt) (rObject c fm (dm+1) bfs))
+    (hd : portV c bfs d = d) :
+    Lock e (fun a b => b = portV c bfs a)
+      (if g = true then obj sc e c.version fs ds txt else pure d)
+      (if g = true then rObject c fm (dm+1) bfs else pure d) := by
+  cases g
+  · simp only [Bool.false_eq_true, if_false]; exact Lock.ret hd.symm
+  · simp only [if_true]; exact hO
+
+theorem portV_empty_tuple (c : Cfg) (b : Bool) : portV c b (.tuple []) = .tuple [] := by
+  rw [portV_tuple, portVList_nil]
+theorem portV_empty_bytes (c : Cfg) : portV c true (.bytes []) = .bytes [] := by
+  unfold portV; split <;> simp [portB]
+
+theorem portV_py3 (c : Cfg) (h : verGeL c.version 3 0 = true) (b : Bool) (v : V) : portV c b v = v := by
+  unfold portV; simp [h]
+
+theorem filterMap_congr_mem {α β : Type} (f g : α → Option β) (l : List α) (h : ∀ x ∈ l, f x = g x) :
+    l.filterMap f = l.filterMap g := by
+  induction l with
+  | nil => rfl
+  | cons x xs ih =>
+    simp only [List.filterMap_cons, h x (by simp)]
+    rw [ih (fun y hy => h y (by simp [hy]))]
+
+theorem code_case (c : Cfg) (sc : SCfg) (hc : CfgOK c sc) (e : Nat) (he : e = era c.version)
+   (fs fm ds dm : Nat)
+   (hO : ∀ bfs txt, Ctx c bfs txt →
+      Lock e (fun a b => b = portV c bfs a) (obj sc e c.version fs ds txt) (rObject c fm (dm+1) bfs))
+   (flag bfs0 : Bool) (hflag : flag = true → verGeL c.version 3 0 = true) :
+   Lock e (fun a b => b = portV c bfs0 a) (code sc e c.version (fs+1) ds flag) (rCode c (fm+1) dm flag) := by
+  rw [code, rCode]
+  simp only []
+  refine Lock.seq (lock_reserve _ flag) ?_
+  rintro i i' ⟨hii, hi⟩; rw [hii]
+  refine Lock.seqEq (lock_argcount c) (fun argcount => ?_)
+  refine Lock.seq (lock_posonly' c sc hc) ?_
+  rintro posonly posonly' ⟨hpp, hpos⟩; rw [hpp]
+  refine Lock.seqEq (lock_kwonly c) (fun kwonly => ?_)
+  refine Lock.seqEq (lock_nlocals c) (fun nlocals => ?_)
+  refine Lock.seqEq (lock_stacksize c) (fun stacksize => ?_)
+  refine Lock.seqEq (lock_flags c) (fun flags => ?_)
+  refine Lock.seq (hO true false (ctx_code c)) ?_
+  rintro co co' rfl
+  simp only [hc.graal, Bool.false_eq_true, if_false]
+  refine Lock.seq (hO _ false (ctx_consts c)) ?_
+  rintro consts consts' rfl
+  refine Lock.seq (hO _ false (ctx_consts c)) ?_
+  rintro names names' rfl
+  -- a filled reference slot means FLAG_REF, hence a 3.4+ stream, where nothing is re-read
+  have hflag3 : i.isSome = true → verGeL c.version 3 0 = true := by
+    intro his
+    exact hflag (hi his)
+  by_cases g311 : verGeL c.version 3 11 = true
+  · have h3 : verGeL c.version 3 0 = true := verGeL_mono _ 3 11 3 0 (by omega) g311
+    simp only [g311, if_true, h3]
+    refine Lock.seq (hO true false (ctx_code c)) ?_
+    rintro lpn lpn' rfl
+    refine Lock.seq (hO true false (ctx_code c)) ?_
+    rintro lpk lpk' rfl
+    refine Lock.seq (hO true false (ctx_code c)) ?_
+    rintro filename filename' rfl
+    refine Lock.seq (hO true false (ctx_code c)) ?_
+    rintro name name' rfl
+    refine Lock.seq (hO true false (ctx_code c)) ?_
+    rintro qualname qualname' rfl
+    refine Lock.seqEq lock_i32 (fun first => ?_)
+    refine Lock.seq (hO true false (ctx_code c)) ?_
+    rintro lt lt' rfl
+    refine Lock.seq (hO true false (ctx_code c)) ?_
+    rintro et et' rfl
+    refine Lock.guard (fun hg => ?_)
+    simp only [portV_py3 c h3]
+    simp only [hc.strict, Bool.true_and, Bool.not_eq_true', Bool.not_eq_false', Bool.and_eq_true] at hg
+    obtain ⟨xs, rfl⟩ : ∃ xs, lpn = .tuple xs := by
+      cases lpn <;> simp at hg
+      exact ⟨_, rfl⟩
+    obtain ⟨ks, rfl⟩ : ∃ ks, lpk = .bytes ks := by
+      cases lpk <;> simp at hg
+      exact ⟨_, rfl⟩
+    simp only [] at hg ⊢
+    have hk : ∀ p ∈ xs.zip ks, kindOK p.2 = true := by
+      intro p hp
+      have hall : ks.all kindOK = true := by
+        cases h : List.all ks kindOK
+        · exact (hg (by simp [h])).elim
+        · rfl
+      rw [List.all_eq_true] at hall
+      exact hall p.2 (List.of_mem_zip hp).2
+    have hcs : (xs.zip ks).filterMap (fun (x : V × Nat) =>
+          if x.snd &&& 32 ≠ 0 then (if x.snd &&& 64 ≠ 0 then some x.fst else Option.none)
+          else if x.snd &&& 64 ≠ 0 then some x.fst else Option.none) =
+        (xs.zip ks).filterMap (fun (x : V × Nat) => if x.snd &&& 64 ≠ 0 then some x.fst else none) := by
+      apply filterMap_congr_mem
+      intro p _
+      by_cases h1 : p.2 &&& 32 ≠ 0 <;> simp [h1]
+    have hfs : (xs.zip ks).filterMap (fun (x : V × Nat) =>
+          if x.snd &&& 32 ≠ 0 then Option.none else if x.snd &&& 64 ≠ 0 then Option.none
+          else if x.snd &&& 128 ≠ 0 then some x.fst else Option.none) =
+        (xs.zip ks).filterMap (fun (x : V × Nat) => if x.snd &&& 128 ≠ 0 then some x.fst else none) := by
+      apply filterMap_congr_mem
+      intro p hp
+      have hkp := hk p hp
+      simp only [kindOK, Bool.or_eq_true, Bool.and_eq_true, decide_eq_true_eq] at hkp
+      by_cases h1 : p.2 &&& 128 ≠ 0
+      · have : p.2 &&& 32 = 0 ∧ p.2 &&& 64 = 0 := by
+          rcases hkp with h | h
+          · exact absurd h h1
+          · exact h
+        simp [h1, this.1, this.2]
+      · simp [h1]
+    rw [hcs, hfs]
+    refine (lock_insert _ _ i (fun _ => rfl)).mono ?_
+    rintro a w ⟨rfl, rfl⟩
+    rfl
+  · simp only [g311, if_false]
+    refine Lock.seq (lock_optObj c sc e fs fm ds dm _ false _ _ (hO false _ (ctx_varnames c)) (portV_empty_tuple c _)) ?_
+    rintro varnames varnames' rfl
+    refine Lock.seq (lock_optObj c sc e fs fm ds dm _ _ false _ (hO _ false (ctx_consts c)) (portV_empty_tuple c _)) ?_
+    rintro freevars freevars' rfl
+    refine Lock.seq (lock_optObj c sc e fs fm ds dm _ _ false _ (hO _ false (ctx_consts c)) (portV_empty_tuple c _)) ?_
+    rintro cellvars cellvars' rfl
+    refine Lock.seq (hO _ false (ctx_consts c)) ?_
+    rintro filename filename' rfl
+    refine Lock.seq (hO _ false (ctx_consts c)) ?_
+    rintro name name' rfl
+    refine Lock.seqEq (lock_first c) (fun first => ?_)
+    refine Lock.seq (lock_optObj c sc e fs fm ds dm _ true false _ (hO true false (ctx_code c)) (portV_empty_bytes c)) ?_
+    rintro lt lt' rfl
+    refine (lock_insert _ _ i ?_).mono ?_
+    · intro his
+      have h3 := hflag3 his
+      simp only [portV_py3 c h3]
+    · rintro a w ⟨rfl, rfl⟩
+      by_cases h3 : verGeL c.version 3 0 = true
+      · simp only [portV_py3 c h3]
+      · simp only [portV, h3]
+        simp [portB, portBFields, portB_leaf _ posonly hpos]
+
+/-! ### the induction -/
+
+/-- the four mutually recursive readers, at Spec fuel `fs` -/
+def Stmt (c : Cfg) (sc : SCfg) (e : Nat) (fs : Nat) : Prop :=
+  (∀ fm ds dm bfs txt, fs ≤ fm → dm ≤ ds → Ctx c bfs txt →
+      Lock e (RO c bfs) (rObj sc e c.version fs ds txt) (rObject c fm dm bfs)) ∧
+  (∀ fm ds dm bfs txt n, fs ≤ fm → dm ≤ ds → Ctx c bfs txt →
+      Lock e (fun a b => b = portVList c bfs a) (items sc e c.version fs ds txt n) (rItems c fm dm bfs n)) ∧
+  (∀ fm ds dm bfs txt, fs ≤ fm → dm ≤ ds → Ctx c bfs txt →
+      Lock e (fun a b => b = portVKVs c bfs a) (dictItems sc e c.version fs ds txt) (rDict c fm dm bfs)) ∧
+  (∀ fm ds dm flag bfs0, fs ≤ fm → dm ≤ ds → (flag = true → verGeL c.version 3 0 = true) →
+      Lock e (fun a b => b = portV c bfs0 a) (code sc e c.version fs ds flag) (rCode c fm dm flag))
+
+theorem sim_all (c : Cfg) (sc : SCfg) (hc : CfgOK c sc) (e : Nat) (he : e = era c.version) :
+    ∀ fs, Stmt c sc e fs := by
+  intro fs
+  induction fs using Nat.strongRecOn with
+  | ind fs ih =>
+    cases fs with
+    | zero =>
+      refine ⟨?_, ?_, ?_, ?_⟩
+      · intro fm ds dm bfs txt _ _ _; rw [rObj]; exact Lock.fail
+      · intro fm ds dm bfs txt n _ _ _; rw [items]; exact Lock.fail
+      · intro fm ds dm bfs txt _ _ _; rw [dictItems]; exact Lock.fail
+      · intro fm ds dm flag bfs0 _ _ _; rw [code]; exact Lock.fail
+    | succ f =>
+      obtain ⟨iO, iI, iD, iC⟩ := ih f (by omega)
+      refine ⟨?_, ?_, ?_, ?_⟩
+      · intro fm ds dm bfs txt hf hd hx
+        obtain ⟨fm', rfl⟩ : ∃ fm', fm = fm' + 1 := ⟨fm - 1, by omega⟩
+        exact rObj_case c sc hc e he f fm' ds dm bfs txt (by omega) hd hx
+          (fun n => iI fm' ds dm bfs txt n (by omega) hd hx)
+          (iD fm' ds dm bfs txt (by omega) hd hx)
+          (fun flag hfl => iC fm' ds dm flag bfs (by omega) hd hfl)
+      · intro fm ds dm bfs txt n hf hd hx
+        obtain ⟨fm', rfl⟩ : ∃ fm', fm = fm' + 1 := ⟨fm - 1, by omega⟩
+        exact items_case c sc e f fm' ds dm bfs txt
+          (iO fm' (ds+1) (dm+1) bfs txt (by omega) (by omega) hx)
+          (fun n => iI fm' ds dm bfs txt n (by omega) hd hx) n
+      · intro fm ds dm bfs txt hf hd hx
+        obtain ⟨fm', rfl⟩ : ∃ fm', fm = fm' + 1 := ⟨fm - 1, by omega⟩
+        exact dict_case c sc hc e f fm' ds dm bfs txt
+          (iO fm' (ds+1) (dm+1) bfs txt (by omega) (by omega) hx)
+          (iD fm' ds dm bfs txt (by omega) hd hx)
+      · intro fm ds dm flag bfs0 hf hd hfl
+        obtain ⟨fm', rfl⟩ : ∃ fm', fm = fm' + 1 := ⟨fm - 1, by omega⟩
+        exact code_case c sc hc e he f fm' ds dm
+          (fun bfs txt hx => lock_obj c sc e f fm' ds dm bfs txt
+            (fun f' hf' => (ih f' (by omega)).1 fm' (ds+1) (dm+1) bfs txt (by omega) (by omega) hx))
+          flag bfs0 hfl
+
+/-! ### the property theorems -/
+
+/-- C10_sim — one object: from related reader states, whenever marshal.c's reader returns a value
+    (or NULL) xdis's `r_object` returns the same value read as xdis reads it (`portV`), having
+    consumed the same bytes, and the reference tables stay related — so every later
+    back-reference yields the same object on both sides.  Any stream, any depth, any era. -/
+theorem C10_sim (c : Cfg) (sc : SCfg) (hc : CfgOK c sc) (fs fm ds dm : Nat) (bfs txt : Bool)
+    (hf : fs ≤ fm) (hd : dm ≤ ds) (hx : Ctx c bfs txt) (ss ss' : PSt) (sm : St) (r : Option V)
+    (hI : Inv (era c.version) ss sm)
+    (hrun : (rObj sc (era c.version) c.version fs ds txt).run ss = .ok (r, ss')) :
+    ∃ w sm', (rObject c fm dm bfs).run sm = .ok (w, sm') ∧ RO c bfs r w ∧ Inv (era c.version) ss' sm' :=
+  (sim_all c sc hc _ rfl fs).1 fm ds dm bfs txt hf hd hx ss sm r ss' hI hrun
+
+/-- a code object is read the same way whatever `bytes_for_s` the caller passed -/
+theorem rObject_code_any (c : Cfg) (f d : Nat) (bfs : Bool) (sm : St) (b : Nat) (rest : Bytes)
+    (hinp : sm.inp = b :: rest) (hb : b &&& 127 = 99) :
+    (rObject c (f+1) d bfs).run sm = (rObject c (f+1) d true).run sm := by
+  rw [rObject, rObject]
+  by_cases hd : d > c.depthLimit
+  · simp only [hd, if_true]
+  · simp only [hd, if_false]
+    rw [M_run_bind, M_run_bind]
+    have hr1 : (readN 1).run sm = .ok ([b], { sm with inp := rest }) := by
+      have := readN_run 1 sm
+      simp [hinp] at this
+      exact this
+    rw [hr1]
+    simp only [hb]
+
+
 end XV.Props.C10.Sim
